@@ -3,18 +3,39 @@
    Equal parameters => equal results, for every program, value and option word. *)
 From Coq Require Import List NArith ZArith Bool Lia.
 From SV.Gen Require Import EncFlags.
-From SV.Enc Require Import Prims Ty Val IR Compile JsonLite MapSort VM Exec.
+From SV.Enc Require Import Prims Ty Val IR Compile JsonLite MapSort VM Exec IntBridge.
 Import ListNotations.
 
 Definition prims_eq (A B : prims) : Prop :=
-  (forall z, p_i64toa A z = p_i64toa B z) /\
-  (forall z, p_u64toa A z = p_u64toa B z) /\
+  (forall z, (- 2 ^ 63 <= z < 2 ^ 63)%Z -> p_i64toa A z = p_i64toa B z) /\      (* int64 arguments *)
+  (forall z, (0 <= z < 2 ^ 64)%Z -> p_u64toa A z = p_u64toa B z) /\            (* uint64 arguments *)
   (forall b t, p_f64toa A b t = p_f64toa B b t) /\
   (forall b t, p_f32toa A b t = p_f32toa B b t) /\
   (forall s d, p_quote A s d = p_quote B s d) /\
   p_stack A = p_stack B /\
   b_f32 A = b_f32 B /\ b_f64 A = b_f64 B /\ b_map_write_key A = b_map_write_key B /\
   b_empty_arr A = b_empty_arr B /\ b_empty_obj A = b_empty_obj B /\ b_recurse A = b_recurse B.
+
+Lemma pattern_range : forall w z, (0 < w <= 64)%N -> (0 <= pattern w z < 2 ^ 64)%Z.
+Proof.
+  intros w z Hw. unfold pattern.
+  assert (0 < 2 ^ Z.of_N w)%Z by (apply Z.pow_pos_nonneg; lia).
+  pose proof (Z.mod_pos_bound z (2 ^ Z.of_N w) H).
+  assert (2 ^ Z.of_N w <= 2 ^ 64)%Z by (apply Z.pow_le_mono_r; lia). lia.
+Qed.
+
+Lemma as_signed_range : forall w z, (0 < w <= 64)%N -> (- 2 ^ 63 <= as_signed w z < 2 ^ 63)%Z.
+Proof.
+  intros w z Hw. unfold as_signed, pattern.
+  assert (Hp : (0 < 2 ^ Z.of_N w)%Z) by (apply Z.pow_pos_nonneg; lia).
+  pose proof (Z.mod_pos_bound z (2 ^ Z.of_N w) Hp) as Hm.
+  assert (Hh : (2 ^ Z.of_N w = 2 * 2 ^ (Z.of_N w - 1))%Z).
+  { rewrite <- Z.pow_succ_r by lia. f_equal. lia. }
+  assert (Hle : (2 ^ (Z.of_N w - 1) <= 2 ^ 63)%Z) by (apply Z.pow_le_mono_r; lia).
+  destruct (z mod 2 ^ Z.of_N w <? 2 ^ (Z.of_N w - 1))%Z eqn:E.
+  - apply Z.ltb_lt in E. lia.
+  - apply Z.ltb_ge in E. lia.
+Qed.
 
 Ltac break_match :=
   repeat match goal with
@@ -43,7 +64,10 @@ Proof.
   destruct (nth_error (fprog f) (fpc f)) as [ins|]; [|reflexivity].
   rewrite <- ?Hst, <- ?H1, <- ?H2, <- ?H3, <- ?H4, <- ?H5, <- ?H6.
   destruct ins; try reflexivity;
-    try (timeout 60 (break_match; rewrite <- ?Hi, <- ?Hu, <- ?Hf64, <- ?Hf32, <- ?Hq; reflexivity)).
+    try (timeout 60 (break_match;
+                     rewrite <- ?Hi by (apply as_signed_range; lia);
+                     rewrite <- ?Hu by (apply pattern_range; lia);
+                     rewrite <- ?Hf64, <- ?Hf32, <- ?Hq; reflexivity)).
   - (* OP_marshal_text *) cbv zeta. break_head. break_head. rewrite Htx. reflexivity.
   - (* OP_marshal_text_p *) break_head. break_head. destruct p as [j t0]. rewrite Htx. reflexivity.
 Qed.
@@ -60,8 +84,8 @@ Theorem exec_agree : forall A B, prims_eq A B ->
 Proof.
   intros A B H e co flags v. unfold encode, exec_top.
   destruct v as [[t x]|]; [|reflexivity].
-  destruct (call e co state0 t (PAt t x 0) flags); try reflexivity.
-  rewrite (run_ext A B H). reflexivity.
+  destruct (call e co state0 t (PAt t x 0) flags) as [s0| | | |];
+    [rewrite (run_ext A B H e co 40 s0); reflexivity | reflexivity ..].
 Qed.
 
 (* ---- the two executors of this tree: where they agree, where they do not *)
@@ -79,6 +103,16 @@ Theorem flag_bits_agree :
   b_empty_obj prims_vm = BitNoNullSliceOrMap /\ b_recurse prims_vm = BitPointerValue.
 Proof. repeat split; reflexivity. Qed.
 
+(* integers: the native fastint.h routines print what strconv prints (Num/IntPrintExact.v, Enc/IntBridge.v) *)
+Theorem prims_agree_int :
+  (forall z, (- 2 ^ 63 <= z < 2 ^ 63)%Z -> p_i64toa prims_vm z = p_i64toa prims_jit z) /\
+  (forall z, (0 <= z < 2 ^ 64)%Z -> p_u64toa prims_vm z = p_u64toa prims_jit z).
+Proof.
+  split; intros z H; cbn [p_i64toa p_u64toa prims_vm prims_jit].
+  - symmetry. apply i64toa_is_itoa. exact H.
+  - symmetry. apply u64toa_is_utoa. exact H.
+Qed.
+
 (* strings: both executors call the same native quote *)
 Theorem prims_agree_quote : forall s d, p_quote prims_vm s d = p_quote prims_jit s d.
 Proof. reflexivity. Qed.
@@ -89,16 +123,68 @@ Proof. intros bits txt H. cbn. rewrite H. reflexivity. Qed.
 Theorem prims_agree_f32_nonzero : forall bits txt, is_zero_f32 bits = false -> p_f32toa prims_vm bits txt = p_f32toa prims_jit bits txt.
 Proof. intros bits txt H. cbn. rewrite H. reflexivity. Qed.
 
-(* -0.0: the interpreter prints 0, the JIT prints -0 (like encoding/json) *)
+(* +-0 (the `v == 0` branch of alg.F64toa / F32toa): agreement whenever the digit oracle is the right one for a zero,
+   i.e. "0" for +0 and "-0" for -0 (what strconv and the native routines print) *)
+Definition zero_txt_ok (w : N) (bits : N) (txt : bytes) : Prop :=
+  (bits = 0%N -> txt = [48%N]) /\ (bits = (2 ^ (w - 1))%N -> txt = [45; 48]%N).
+
+Theorem prims_agree_f64_zero : forall bits txt, (bits < 2 ^ 64)%N -> zero_txt_ok 64 bits txt ->
+  p_f64toa prims_vm bits txt = p_f64toa prims_jit bits txt.
+Proof.
+  intros bits txt Hb [H0 H1]. cbn [p_f64toa prims_vm prims_jit]. unfold is_zero_f64.
+  destruct (bits mod 2 ^ 63 =? 0)%N eqn:E; [|reflexivity].
+  apply N.eqb_eq in E.
+  destruct (bits =? 0)%N eqn:E0.
+  - apply N.eqb_eq in E0. symmetry. auto.
+  - apply N.eqb_neq in E0. symmetry. apply H1.
+    pose proof (N.div_mod' bits (2 ^ 63)) as D. rewrite E in D.
+    assert (bits / 2 ^ 63 < 2)%N by (apply N.div_lt_upper_bound; [discriminate|]; change (2 ^ 63 * 2)%N with (2 ^ 64)%N; exact Hb).
+    assert (bits / 2 ^ 63 = 0 \/ bits / 2 ^ 63 = 1)%N as [Q|Q] by lia; rewrite Q in D; [lia|].
+    change (2 ^ (64 - 1))%N with (2 ^ 63)%N. lia.
+Qed.
+
+Theorem prims_agree_f32_zero : forall bits txt, (bits < 2 ^ 32)%N -> zero_txt_ok 32 bits txt ->
+  p_f32toa prims_vm bits txt = p_f32toa prims_jit bits txt.
+Proof.
+  intros bits txt Hb [H0 H1]. cbn [p_f32toa prims_vm prims_jit]. unfold is_zero_f32.
+  destruct (bits mod 2 ^ 31 =? 0)%N eqn:E; [|reflexivity].
+  apply N.eqb_eq in E.
+  destruct (bits =? 0)%N eqn:E0.
+  - apply N.eqb_eq in E0. symmetry. auto.
+  - apply N.eqb_neq in E0. symmetry. apply H1.
+    pose proof (N.div_mod' bits (2 ^ 31)) as D. rewrite E in D.
+    assert (bits / 2 ^ 31 < 2)%N by (apply N.div_lt_upper_bound; [discriminate|]; change (2 ^ 31 * 2)%N with (2 ^ 32)%N; exact Hb).
+    assert (bits / 2 ^ 31 = 0 \/ bits / 2 ^ 31 = 1)%N as [Q|Q] by lia; rewrite Q in D; [lia|].
+    change (2 ^ (32 - 1))%N with (2 ^ 31)%N. lia.
+Qed.
+
+(* -0.0 (formerly refuted: the interpreter printed 0; repaired by fix b09723f): both executors print -0 *)
 Definition negzero64 : val := VFloat (2 ^ 63) (Some [45; 48]%N).
 Definition negzero32 : val := VFloat (2 ^ 31) (Some [45; 48]%N).
-Theorem f64_zero_refuted :
-  encode prims_vm [] default_copts 39 (Some (TPrim KFloat64, negzero64)) = Done [48%N] /\
+Theorem f64_negzero_agree :
+  encode prims_vm [] default_copts 39 (Some (TPrim KFloat64, negzero64)) = Done [45; 48]%N /\
   encode prims_jit [] default_copts 39 (Some (TPrim KFloat64, negzero64)) = Done [45; 48]%N /\
-  encode prims_vm [] default_copts 39 (Some (TPrim KFloat32, negzero32)) = Done [48%N] /\
+  encode prims_vm [] default_copts 39 (Some (TPrim KFloat32, negzero32)) = Done [45; 48]%N /\
   encode prims_jit [] default_copts 39 (Some (TPrim KFloat32, negzero32)) = Done [45; 48]%N.
 Proof. repeat split; vm_compute; reflexivity. Qed.
 
 (* the state stack: Stack.Push admits MaxStack frames, save_state one less *)
 Theorem stack_bound_refuted : p_stack prims_vm = 4096%N /\ p_stack prims_jit = 4095%N.
 Proof. split; reflexivity. Qed.
+
+(* everything else agrees: the JIT with the three divergent components replaced by the interpreter's
+   (the `v == 0` branch of the float printers, which trusts no digit oracle; the state-stack bound) is the interpreter, on every type, value and option word *)
+Definition prims_jit_repaired : prims := {|
+  p_i64toa := p_i64toa prims_jit; p_u64toa := p_u64toa prims_jit;
+  p_f64toa := p_f64toa prims_vm; p_f32toa := p_f32toa prims_vm;
+  p_quote := p_quote prims_jit; p_stack := p_stack prims_vm;
+  b_f32 := b_f32 prims_jit; b_f64 := b_f64 prims_jit; b_map_write_key := b_map_write_key prims_jit;
+  b_empty_arr := b_empty_arr prims_jit; b_empty_obj := b_empty_obj prims_jit; b_recurse := b_recurse prims_jit |}.
+
+Theorem exec_agree_partial : forall e co flags v,
+  encode prims_vm e co flags v = encode prims_jit_repaired e co flags v.
+Proof.
+  intros. apply exec_agree. unfold prims_eq.
+  destruct prims_agree_int as [Hi Hu].
+  repeat split; try reflexivity; assumption.
+Qed.
